@@ -102,7 +102,9 @@ def literal_twin(t, profile):
 
 
 def judge(ctx, t, rng, select, keys_fn, cls, like_fold=True, cap=400, extra_case=None,
-          profile=None, twin=True):
+          profile=None, twin=True, domain=None):
+    if domain is not None:
+        return _judge(ctx, t, rng, select, keys_fn, cls, like_fold, cap, extra_case, profile, domain=domain)
     ok = _judge(ctx, t, rng, select, keys_fn, cls, like_fold, cap, extra_case, profile)
     if ok and twin and ctx.counters.get("evaluations", 0) % 3 == 0:
         t2 = case_twin(t)
